@@ -15,6 +15,7 @@ import (
 	"io"
 	"math/rand"
 	"os"
+	"os/exec"
 	"sort"
 	"strconv"
 	"strings"
@@ -195,6 +196,18 @@ func (c *dctl) quiesce(grace time.Duration, done <-chan struct{}) bool {
 	}
 }
 
+// deadlineCtx - a cancellable context that also reports a deadline (in the past: once it is done the
+// deadline has expired), and DeadlineExceeded as its error
+type deadlineCtx struct{ context.Context }
+
+func (c deadlineCtx) Deadline() (time.Time, bool) { return time.Unix(1, 0), true }
+func (c deadlineCtx) Err() error {
+	if c.Context.Err() != nil {
+		return context.DeadlineExceeded
+	}
+	return nil
+}
+
 type lockedWriter struct {
 	mu  sync.Mutex
 	buf bytes.Buffer
@@ -310,7 +323,11 @@ func runDag(def *DagDef, grace time.Duration) *DagObs {
 		objs[key] = t
 		return t
 	}
-	for _, op := range def.Ops {
+	for oi, op := range def.Ops {
+		if oi == 1 && len(obs.Key)%2 == 0 {
+			// a program may validate what it has built so far and go on building
+			_ = g.Validate(dag.NewTaskMap())
+		}
 		switch op.Kind {
 		case "add":
 			g.AddTask(mk(op.T))
@@ -334,6 +351,10 @@ func runDag(def *DagDef, grace time.Duration) *DagObs {
 	}
 	ctx, cancel := context.WithCancel(context.Background())
 	defer cancel()
+	if len(obs.Key)%3 == 1 {
+		// the same cancellation seen through a context that has a deadline, already past when it ends
+		ctx = deadlineCtx{ctx}
+	}
 	doneCh := make(chan struct{})
 	var runErr error
 	go func() {
@@ -514,6 +535,25 @@ func secondRun(g *dag.Graph, obs *DagObs) {
 		return nil
 	})
 	g.TaskDependsOn(nt, g.Task(dep))
+	// the limit is lowered between the runs and more new tasks than the limit are ready together
+	var cur, peak int64
+	if wantRun {
+		g.SetMaxParallel(1)
+		for _, id := range []string{"zz-a", "zz-b", "zz-c"} {
+			g.AddTask(dag.NewTask(id, func(ctx context.Context, opt *getoptions.GetOpt, args []string) error {
+				n := atomic.AddInt64(&cur, 1)
+				for {
+					p := atomic.LoadInt64(&peak)
+					if n <= p || atomic.CompareAndSwapInt64(&peak, p, n) {
+						break
+					}
+				}
+				time.Sleep(2 * time.Millisecond)
+				atomic.AddInt64(&cur, -1)
+				return nil
+			}))
+		}
+	}
 	done := make(chan error, 1)
 	go func() { done <- g.Run(context.Background(), nil, nil) }()
 	var err error
@@ -526,6 +566,10 @@ func secondRun(g *dag.Graph, obs *DagObs) {
 		return
 	}
 	n := atomic.LoadInt64(&entered)
+	if pk := atomic.LoadInt64(&peak); pk > 1 {
+		obs.Oracle["C15"] = append(obs.Oracle["C15"], OracleHit{Key: "second-run-limit",
+			What: fmt.Sprintf("SetMaxParallel(1) was called after the first Run; in the second Run %d task functions executed at the same time", pk)})
+	}
 	switch {
 	case wantRun && (n != 1 || err != nil):
 		obs.Oracle["C13"] = append(obs.Oracle["C13"], OracleHit{Key: "second-run",
@@ -998,6 +1042,13 @@ func cmdDag(argv []string) {
 		}
 		pwg.Wait()
 	}
+	if len(results) > 0 && (*profile == "result" || *profile == "history") {
+		// once per run, in a child process (a panicking task function takes the process down): the
+		// task a dependency of which panicked must never be entered
+		if hit := panicChild(); hit != nil {
+			results[0].Oracle["C13"] = append(results[0].Oracle["C13"], *hit)
+		}
+	}
 	terms := []*T{}
 	for i, obs := range results {
 		ci := i
@@ -1033,4 +1084,43 @@ func cmdDag(argv []string) {
 		f.Close()
 	}
 	fmt.Printf("cases=%d skipped_definitions=0\n", len(terms))
+}
+
+// cmdDagPanic - child side of panicChild: b depends on a, a's function panics
+func cmdDagPanic() {
+	g := dag.NewGraph("p")
+	g.TickerDuration = 200 * time.Microsecond
+	a := dag.NewTask("a", func(ctx context.Context, opt *getoptions.GetOpt, args []string) error {
+		var m map[string]int
+		m["x"] = 1
+		return nil
+	})
+	b := dag.NewTask("b", func(ctx context.Context, opt *getoptions.GetOpt, args []string) error {
+		fmt.Println("VERIF-DEPENDENT-ENTERED")
+		return nil
+	})
+	g.TaskDependsOn(b, a)
+	err := g.Run(context.Background(), nil, nil)
+	fmt.Printf("VERIF-RUN-RETURNED %v\n", err)
+}
+
+func panicChild() *OracleHit {
+	cmd := exec.Command(os.Args[0], "dagpanic")
+	cmd.Env = append(os.Environ(), "GOTRACEBACK=none")
+	done := make(chan []byte, 1)
+	go func() {
+		out, _ := cmd.CombinedOutput()
+		done <- out
+	}()
+	select {
+	case out := <-done:
+		if strings.Contains(string(out), "VERIF-DEPENDENT-ENTERED") {
+			return &OracleHit{Key: "panic-dependency", What: fmt.Sprintf("b depends on a; a's task function panicked; b was entered all the same (child process output: %q)", string(out))}
+		}
+	case <-time.After(20 * time.Second):
+		if cmd.Process != nil {
+			_ = cmd.Process.Kill()
+		}
+	}
+	return nil
 }
